@@ -386,6 +386,19 @@ func TestVerif_C14(t *testing.T) {
 						node: c14NodeCfg{Stored: (si+rs)%2 == 0, InMem: true, NoLRU: true}})
 				}
 			}
+			if rep := ve.Env("VERIF_C14_CRASHREP", ""); rep != "" && ph.extras { // diagnosis aid: only the crash jobs, repeated
+				n := 0
+				fmt.Sscan(rep, &n)
+				for k := 0; k < n; k++ {
+					for _, lag := range []int{0, 3, 6} {
+						for rs := 5 + lag; rs <= rounds-3; rs++ {
+							si := (rs + lag) % 2
+							jobs = append(jobs, c14Job{hist: hi, sched: schedNames[si], flush: scheds[si], restart: rs, crash: true, lag: lag, cfgName: tc.name, node: c14NodeCfg{Stored: (rs+lag)%3 != 0, InMem: true, NoLRU: true}})
+						}
+					}
+				}
+				continue
+			}
 			if ph.extras {
 				// (ordered by how much they add: a budget cap cuts from the end)
 				// block queue batches: rounds s..s+k-1 persisted at once (single committedUpTo)
